@@ -87,6 +87,26 @@ def frame_independent(s1, s2):
     return Out(parts=parts, obs={"w_ego": w_ego, "w_map": w_map})
 
 
+def heading_two_poses(s1, k1, k2):
+    """get_heading_bev of one map-frame object under two different ego poses (quarter-turn ego yaws, symbolic object
+    yaw): each answer is the ego-relative heading for *that* pose - nothing is remembered from the first call."""
+    t1, _ = _angles()
+    obj = _obj("o", FrameID.MAP, t1, s1, 5.0)
+    outs = []
+    for tag, k in (("a", k1), ("b", k2)):
+        q = {0: (1, 0, 0, 0), 1: (1, 0, 0, 1), 2: (0, 0, 0, 1), 3: (1, 0, 0, -1)}[k]
+        tr = TransformDict(HomogeneousMatrix((real(f"ego_{tag}_tx", -50, 50), 3.0, 0.0), build.mkrot(q), FrameID.BASE_LINK,
+                                             FrameID.MAP))
+        got = obj.get_heading_bev(tr)
+        rel = _wrap(t1 - k * PI / 2)          # ego-relative yaw
+        exp = -rel - PI / 2
+        exp = L.If(exp > PI, exp - 2 * PI, L.If(exp < -PI, exp + 2 * PI, exp))
+        outs.append((got, exp))
+    parts = {"first_pose": L.Or(L.close(outs[0][0], outs[0][1], 1e-9), L.close(abs(outs[0][0] - outs[0][1]), 2 * PI, 1e-9)),
+             "second_pose": L.Or(L.close(outs[1][0], outs[1][1], 1e-9), L.close(abs(outs[1][0] - outs[1][1]), 2 * PI, 1e-9))}
+    return Out(parts=parts, obs={"h": [outs[0][0], outs[1][0]]})
+
+
 def yaw_error(s1, s2):
     t1, t2 = _angles()
     est = _obj("e", FrameID.BASE_LINK, t1, s1, 5.0)
@@ -118,6 +138,9 @@ def obligations(pid, tier):
         Obligation("frame_independent", frame_independent, extras=_extras,
                    cases=[dict(s1=a, s2=b) for a, b in signs],
                    desc="weight of a pair rendered in the map frame under any ego yaw equals its ego-frame weight"),
+        Obligation("heading_two_poses", heading_two_poses, extras=_extras,
+                   cases=[dict(s1=s, k1=a, k2=b) for s in (1, -1) for a, b in ((0, 1), (2, 3), (1, 0))],
+                   desc="heading of one map-frame object under two ego poses, one call after the other"),
         Obligation("yaw_error", yaw_error, extras=_extras, cases=[dict(s1=a, s2=b) for a, b in signs],
                    desc="reported yaw error lies in [-pi, pi] with magnitude d, in both orders"),
     ]
